@@ -14,6 +14,7 @@
 #include "vp.h"
 #include "vp_bind.h"
 #include "avtp/Utils.h"
+#include <errno.h>
 
 #define ARENA_SZ   8192
 #define NDERIVED   16
@@ -123,8 +124,12 @@ static void make_buffer(vp_rng_t* r, uint32_t cls, uint8_t* hdr, size_t n, const
 enum { P_GENERIC, P_DEDICATED, P_LEGACY };
 static const char* const path_names[] = { "generic", "dedicated", "legacy" };
 
+/* errno as unrelated earlier calls of the program may have left it (a counter, not the generator: same at every placement) */
+static void errno_noise(void) { static unsigned k; static const int ev[4] = { EINVAL, 0, ERANGE, EINVAL }; errno = ev[k++ & 3]; }
+
 static uint64_t do_get(fm_t* m, const vp_field_t* fld, int path)
 {
+    errno_noise();
     vp_call(m->c);
     if (path == P_DEDICATED) return fld->dget(PDU(m));
     if (path == P_LEGACY) {
@@ -137,6 +142,7 @@ static uint64_t do_get(fm_t* m, const vp_field_t* fld, int path)
 
 static void do_set(fm_t* m, const vp_field_t* fld, int path, uint64_t v)
 {
+    errno_noise();
     vp_call(m->c);
     if (path == P_DEDICATED) fld->dset(PDU(m), v);
     else if (path == P_LEGACY) m->f->lset(PDU(m), fld->id, v);
@@ -164,8 +170,51 @@ static uint64_t read_one(fm_t* m, const vp_field_t* fld, int path, const char* b
     return got;
 }
 
+/* every reader on a header that lies in read-only memory (a received frame mapped read-only, a const image): a reader that
+ * stores into the buffer - even the bytes it just read - faults there */
+typedef struct { fm_t* m; const vp_field_t* fld; int path; uint8_t* p; uint64_t got; } roget_t;
+static void roget_thunk(void* a)
+{
+    roget_t* k = (roget_t*)a;
+    if (k->path == P_DEDICATED) k->got = k->fld->dget(k->p);
+    else if (k->path == P_LEGACY) { uint64_t v = 0; uint32_t v32 = 0; if (k->m->f->lvalbytes == 4) { k->m->f->lget(k->p, k->fld->id, &v32); k->got = v32; } else { k->m->f->lget(k->p, k->fld->id, &v); k->got = v; } }
+    else k->got = k->m->f->gget(k->p, k->fld->id);
+}
+static void read_readonly(fm_t* m)
+{
+    const vp_format_t* f = m->f; vp_ctx_t* c = m->c;
+    size_t n = hdr_len(f);
+    static uint8_t* page;
+    if (!page) page = vp_map(8192);
+    for (uint32_t rep = 0; rep < 3; rep++) {
+        uint8_t* p = page + 4096 - n - (rep == 2 ? 3 : 0) + (rep == 1 ? 0 : 0);   /* header ends at the page end (rep 0,1) or 3 bytes before */
+        vp_readonly(page, 8192, 0);
+        vp_rng_fill(&c->rng, page, 8192);
+        if (rep == 1) memset(p, 0xff, n);
+        vp_readonly(page, 8192, 1);
+        for (uint32_t fi = 0; fi < f->nfields; fi++) {
+            const vp_field_t* fld = &f->fields[fi];
+            for (int path = P_GENERIC; path <= P_LEGACY; path++) {
+                if (path == P_DEDICATED && !fld->dget) continue;
+                if (path == P_LEGACY && (!f->lget || fld->id >= f->max_id)) continue;
+                roget_t k = { m, fld, path, p, 0 };
+                vp_curop("read-readonly", f->id, fld->name, path);
+                vp_call(c);
+                int sig = vp_try(roget_thunk, &k);
+                uint64_t exp = bf_get(p, fld->pos, fld->width);
+                if (path == P_LEGACY && f->lvalbytes == 4) exp = (uint32_t)exp;
+                c->evals++;
+                if (sig) { if (vp_viol(c, "read", f->id, fld->name, path_names[path], "fault-on-read-only-buffer", 0)) { o_s(c, "{\"signal\":"); o_u(c, (uint64_t)sig); o_s(c, "}"); o_end(c); } }
+                else if (k.got != exp && vp_viol(c, "read", f->id, fld->name, path_names[path], "value-mismatch-on-read-only-buffer", 0)) { o_s(c, "{\"expected\":\""); o_x(c, exp); o_s(c, "\",\"got\":\""); o_x(c, k.got); o_s(c, "\"}"); o_end(c); }
+            }
+        }
+    }
+    vp_readonly(page, 8192, 0);
+}
+
 static void mode_read(fm_t* m, uint64_t* nontrivial)
 {
+    read_readonly(m);
     const vp_format_t* f = m->f;
     size_t n = hdr_len(f);
     uint8_t hdr[MAXHDR];
@@ -402,6 +451,66 @@ static void mode_raw(fm_t* m, uint64_t* nontrivial)
                     }
                 }
                 if (changed) (*nontrivial)++;
+            }
+        }
+    }
+    /* a caller-owned descriptor table is an ordinary mutable object: the same object used again after one member changed
+     * (another start quadlet; an entry corrected after it was malformed) must be read afresh on every call */
+    {
+        static const uint8_t offs[] = { 0, 5, 8, 31 }, ws[] = { 1, 8, 13, 32, 33, 64 }, qs[] = { 0, 1, 2, 3, 7, 2, 0, 5 };
+        for (uint32_t oi = 0; oi < 4; oi++) for (uint32_t wi = 0; wi < 6; wi++) {
+            desc[0].quadlet = 0; desc[0].offset = 0; desc[0].bits = 8;
+            desc[1].offset = offs[oi]; desc[1].bits = ws[wi];
+            desc[2].quadlet = 1; desc[2].offset = 3; desc[2].bits = (oi == 1 && wi < 3) ? 65 : 29;      /* sometimes a malformed neighbour at first */
+            if (oi == 0 && wi == 0) {
+                /* a table object whose very first use happens while a neighbour entry is still malformed */
+                static Avtp_FieldDescriptor_t* fresh;      /* its own mapping: an address no other table ever had */
+                if (!fresh) fresh = (Avtp_FieldDescriptor_t*)vp_map(4096);
+                uint8_t* p = PDU(m); uint8_t* sh = SH(m);
+                fresh[0].quadlet = 0; fresh[0].offset = 0; fresh[0].bits = 8; fresh[1].quadlet = 2; fresh[1].offset = 4; fresh[1].bits = 24;
+                fresh[2].quadlet = 1; fresh[2].offset = 40; fresh[2].bits = 99;
+                for (uint32_t step = 0; step < 4; step++) {
+                    if (step == 2) { fresh[2].offset = 3; fresh[2].bits = 29; }
+                    vp_rng_fill(&c->rng, p, MAXHDR); memcpy(sh, p, MAXHDR);
+                    vp_call(c);
+                    uint64_t got = Avtp_GetField(fresh, 3, p, 1), exp = bf_get(sh, 2 * 32 + 4, 24);
+                    c->evals++;
+                    vp_tr_u64(c, got);
+                    if (got != exp && vp_viol(c, "raw", "RAW", "get", "table-first-used-with-a-malformed-neighbour-entry", "value-mismatch", 0)) { o_s(c, "{\"step\":"); o_u(c, step); o_s(c, "}"); o_end(c); }
+                    uint64_t v = vp_rng_next(&c->rng);
+                    bf_set(sh, 2 * 32 + 4, 24, v & bf_mask(24));
+                    vp_call(c);
+                    Avtp_SetField(fresh, 3, p, 1, v);
+                    size_t o1, c1, l1;
+                    c->evals++;
+                    if (vp_arena_diff(c, &m->a, &o1, &c1, &l1)) {
+                        if (vp_viol(c, "raw", "RAW", "set", "table-first-used-with-a-malformed-neighbour-entry", "bytes-mismatch", 0)) { o_s(c, "{\"step\":"); o_u(c, step); o_s(c, "}"); o_end(c); }
+                        vp_arena_resync(&m->a);
+                    }
+                }
+            }
+            for (uint32_t step = 0; step < 8; step++) {
+                uint8_t* p = PDU(m); uint8_t* sh = SH(m);
+                desc[1].quadlet = qs[step];
+                if (step == 3) desc[2].bits = 29;                                                           /* corrected in place */
+                uint32_t pos = (uint32_t)qs[step] * 32 + offs[oi], w = ws[wi];
+                vp_rng_fill(&c->rng, p, MAXHDR); memcpy(sh, p, MAXHDR);
+                vp_curop("raw-same-descriptor-object", "RAW", "", pos * 100 + w);
+                vp_call(c);
+                uint64_t got = Avtp_GetField(desc, 3, p, 1), exp = bf_get(sh, pos, w);
+                c->evals++;
+                vp_tr_u64(c, got);
+                if (got != exp && vp_viol(c, "raw", "RAW", "get", "descriptor-object-modified-between-calls", "value-mismatch", 0)) { o_s(c, "{\"step\":"); o_u(c, step); o_s(c, ",\"quadlet\":"); o_u(c, qs[step]); o_s(c, ",\"offset\":"); o_u(c, offs[oi]); o_s(c, ",\"bits\":"); o_u(c, w); o_s(c, "}"); o_end(c); }
+                uint64_t v = vp_rng_next(&c->rng);
+                bf_set(sh, pos, w, v & bf_mask(w));
+                vp_call(c);
+                Avtp_SetField(desc, 3, p, 1, v);
+                size_t o1, c1, l1;
+                c->evals++;
+                if (vp_arena_diff(c, &m->a, &o1, &c1, &l1)) {
+                    if (vp_viol(c, "raw", "RAW", "set", "descriptor-object-modified-between-calls", "bytes-mismatch", 0)) { o_s(c, "{\"step\":"); o_u(c, step); o_s(c, ",\"quadlet\":"); o_u(c, qs[step]); o_s(c, ",\"offset\":"); o_u(c, offs[oi]); o_s(c, ",\"bits\":"); o_u(c, w); o_s(c, "}"); o_end(c); }
+                    vp_arena_resync(&m->a);
+                }
             }
         }
     }
@@ -743,6 +852,11 @@ static void mode_badargs(fm_t* m, uint64_t* nontrivial)
                 ba_run(m, &g, "invalid-id", idc[i], 1, EINVAL_RC, nontrivial);
                 ba_call_t s = { f, 0, 6, ids[i], vp_rng_next(&c->rng), PDU(m), 0, 0, 0 };
                 ba_run(m, &s, "invalid-id", idc[i], 1, EINVAL_RC, nontrivial);
+                /* values an implementation might treat specially: 0 (what a rejected read returns), 1, all ones */
+                for (uint32_t sv = 0; sv < 3; sv++) {
+                    ba_call_t s2 = { f, 0, 6, ids[i], sv == 0 ? 0 : sv == 1 ? 1 : ~(uint64_t)0, PDU(m), 0, 0, 0 };
+                    ba_run(m, &s2, "invalid-id", idc[i], 1, EINVAL_RC, nontrivial);
+                }
                 ba_call_t g2 = { f, 0, 5, ids[i], 0, 0, res, 0, 0 };
                 ba_run(m, &g2, "invalid-id+null-pdu", idc[i], 1, EINVAL_RC, nontrivial);
                 ba_call_t g3 = { f, 0, 5, ids[i], 0, PDU(m), 0, 0, 0 };
@@ -830,6 +944,32 @@ static void mode_badargs(fm_t* m, uint64_t* nontrivial)
             }
         }
     }
+    if (round == 0) {
+        /* a rejected call must not store into the PDU at all - not even the bytes it read: the PDU lies in a read-only page */
+        static uint8_t* page;
+        if (!page) page = vp_map(4096);
+        vp_readonly(page, 4096, 0);
+        vp_rng_fill(&c->rng, page, 4096);
+        uint8_t* rp = page + 1024 + g_place;
+        vp_readonly(page, 4096, 1);
+        for (uint32_t i = 0; i < nid + 8 && i < 40; i++) {
+            uint32_t id = i < nid ? ids[i] : (nwrap ? wrapids[(i * 37) % nwrap] : max);
+            for (int op = 0; op < 4; op++) {
+                if (op >= 2 && !f->lget) continue;
+                uint64_t r64 = 0xc3c3c3c3c3c3c3c3ull;
+                ba_call_t e = { f, 0, op == 0 ? 0 : op == 1 ? 1 : op == 2 ? 5 : 6, id, (i & 1) ? 0 : vp_rng_next(&c->rng), rp, &r64, 0, 0 };
+                vp_curop("badargs-readonly", f->id, ba_opnames[e.op], id);
+                vp_call(c);
+                int sig = vp_try(ba_thunk, &e);
+                c->evals++;
+                if (sig) { if (vp_viol(c, "badargs", f->id, ba_opnames[e.op], "invalid-id", "stores-into-read-only-pdu", 0)) { o_s(c, "{\"id\":"); o_u(c, id); o_s(c, ",\"signal\":"); o_u(c, (uint64_t)sig); o_s(c, "}"); o_end(c); } }
+                else if (op == 0 && e.out != 0) { if (vp_viol(c, "badargs", f->id, ba_opnames[e.op], "invalid-id", "nonzero-result-on-read-only-pdu", 0)) { o_s(c, "{\"id\":"); o_u(c, id); o_s(c, "}"); o_end(c); } }
+                else if (op >= 2 && e.rc != EINVAL_RC) { if (vp_viol(c, "badargs", f->id, ba_opnames[e.op], "invalid-id", "return-code-on-read-only-pdu", 0)) { o_s(c, "{\"id\":"); o_u(c, id); o_s(c, ",\"rc\":"); o_u(c, (uint64_t)(int64_t)e.rc); o_s(c, "}"); o_end(c); } }
+                (*nontrivial)++;
+            }
+        }
+        vp_readonly(page, 4096, 0);
+    }
     if (f->init) { ba_call_t e = { f, 0, 4, 0, 0, 0, 0, 0, 0 }; ba_run(m, &e, round ? "null-pdu-after-valid-use" : "null-pdu", "-", 0, 0, nontrivial); }
     if (f->linit) {
         ba_call_t e = { f, 0, 7, 0, 1, 0, 0, 0, 0 }; ba_run(m, &e, round ? "null-pdu-after-valid-use" : "null-pdu", "-", 1, EINVAL_RC, nontrivial);
@@ -882,6 +1022,27 @@ static void mode_legacy(fm_t* m, fm_t* m2, uint64_t* nontrivial)
         c->evals++;
         if (f->alias_max != f->max_id && vp_viol(c, "legacy", f->id, "alias-max", "alias-value", 0, 0)) { o_s(c, "{\"alias_max\":"); o_u(c, f->alias_max); o_s(c, ",\"max\":"); o_u(c, f->max_id); o_s(c, "}"); o_end(c); }
     }
+    /* the result object may lie inside the PDU itself (in-place conversion of a header word to host order): the value
+     * delivered must be the field as it was before the call, and only the result object's bytes may change */
+    for (uint32_t fi = 0; fi < f->nfields; fi++) {
+        const vp_field_t* fld = &f->fields[fi];
+        if (fld->id >= f->max_id) continue;
+        for (size_t off = 0; off + f->lvalbytes <= n; off += f->lvalbytes) {
+            for (uint32_t r = 0; r < 3; r++) {
+                make_buffer(&c->rng, r == 0 ? BC_ONES : BC_RANDOM, hdr, n, fld);
+                fm_load(m, hdr, n);
+                if (((uintptr_t)(PDU(m) + off)) % f->lvalbytes) continue;      /* the result object must be aligned for its type (generator use is the same at every placement) */
+                uint64_t exp = bf_get(SH(m), fld->pos, fld->width);
+                if (f->lvalbytes == 4) { uint32_t x = (uint32_t)exp; memcpy(SH(m) + off, &x, 4); } else memcpy(SH(m) + off, &exp, 8);
+                vp_curop("legacy-aliased-result", f->id, fld->name, off);
+                vp_call(c);
+                int rc = f->lget(PDU(m), fld->id, PDU(m) + off);
+                c->evals++;
+                if (rc != 0 && vp_viol(c, "legacy", f->id, fld->name, "get", "result-object-inside-pdu", "rc")) { o_s(c, "{\"offset\":"); o_u(c, off); o_s(c, "}"); o_end(c); }
+                fm_check(m, "legacy", fld->name, "get-result-object-inside-pdu", n, off, 0);
+            }
+        }
+    }
     /* paired calls on identical buffers */
     for (uint32_t fi = 0; fi < f->nfields; fi++) {
         const vp_field_t* fld = &f->fields[fi];
@@ -895,6 +1056,7 @@ static void mode_legacy(fm_t* m, fm_t* m2, uint64_t* nontrivial)
             /* get */
             uint64_t lv = 0; uint32_t lv32 = 0; int rc;
             vp_curop("legacy", f->id, fld->name, 1);
+            errno_noise();
             vp_call(c);
             if (f->lvalbytes == 4) { rc = f->lget(PDU(m), fld->id, &lv32); lv = lv32; } else rc = f->lget(PDU(m), fld->id, &lv);
             vp_call(c);
@@ -1128,7 +1290,19 @@ static void h_apply(fm_t* m, const hop_t* op)
     vp_ctx_t* c = m->c;
     size_t n = hdr_len(f);
     memcpy(m->before, PDU(m), n > MAXHDR ? MAXHDR : n);
-    if (op->op == 0) {            /* init */
+    /* whatever errno holds from unrelated earlier calls of the program must not influence a library call */
+    { static const int ev[4] = { 0, EINVAL, ERANGE, 0 }; errno = ev[(op->v ^ op->fi ^ op->arg) & 3]; }
+    if (op->op == 3) {            /* a call the library rejects (unknown identifier / null PDU) between the valid ones: no effect, nothing remembered */
+        vp_curop("history-rejected-call", f->id, "", op->arg);
+        vp_call(c);
+        switch (op->arg & 3) {
+        case 0: (void)f->gget(PDU(m), f->max_id + (op->arg >> 2)); break;
+        case 1: f->gset(PDU(m), f->max_id + (op->arg >> 2), op->v); break;
+        case 2: (void)f->gget(0, f->fields[op->fi].id); break;
+        default: f->gset(0, f->fields[op->fi].id, op->v); break;
+        }
+        fm_check(m, "history", "rejected-call", "typed", n, 0, 0);
+    } else if (op->op == 0) {            /* init */
         memcpy(SH(m), f->image, n);
         vp_curop("history-init", f->id, "", op->path);
         vp_call(c);
@@ -1169,7 +1343,8 @@ static void gen_op(vp_ctx_t* c, const vp_format_t* f, hop_t* op)
         op->path = (f->linit && (vp_rng_next(&c->rng) & 1)) ? P_LEGACY : P_GENERIC;
         op->arg = (uint32_t)vp_rng_below(&c->rng, 256);
     } else {
-        op->op = r < 62 ? 1 : 2;
+        op->op = r < 62 ? 1 : r < 95 ? 2 : 3;
+        if (op->op == 3) op->arg = (uint32_t)vp_rng_below(&c->rng, 64);
         op->fi = (uint16_t)vp_rng_below(&c->rng, f->nfields);
         op->path = (uint8_t)pick_path(c, f, &f->fields[op->fi]);
         op->v = vp_value_class(&c->rng, (uint32_t)vp_rng_below(&c->rng, VP_NVALCLASS + 6), f->fields[op->fi].width);
